@@ -611,6 +611,13 @@ class IterProtocol:
             if l[0] == "le":
                 # relaxation by one (x <= c -> x <= c+1) catches counters that overshoot their guard once
                 singles.append(flit(("le", l[1] - 1)))
+        # a counter that only moves in steps of c stays congruent to its initial value modulo c
+        for s2, r, newv, n0 in res:
+            imap, bmap = self.post_maps(newv, isyms, bsyms)
+            for a in isyms.values():
+                d = imap[a] - Lin.atom(a)
+                if d.is_const() and abs(d.c) > 1:
+                    singles.append(flit(eq(Lin.atom(("mod", (Lin.atom(a) - inits_i[a]).key(), abs(d.c))), 0)))
         # a counter dominated by another counter (an item count below an iterator position)
         ivals = list(isyms.values())
         for a1 in ivals:
